@@ -204,11 +204,19 @@ def set_alias(where: int, vk: int, via: int) -> bool:
     return _reload_same(doc)
 
 
+def _seq(x):
+    return list(x) if isinstance(x, list) else x
+
+
+def _map(x):
+    return dict(x) if isinstance(x, dict) else x
+
+
 def history(op1: int, i1: int, op2: int, i2: int, v: int, a: int, b: int, c: int) -> bool:
     """Two edits (set existing / set creating / delete) compared step by step with a plain-data model."""
     lst = cseq(a, b, c)
-    doc = cmap(("k", 0), ("l", lst), ("h", cmap(("p", 5))))
-    model = {"k": 0, "l": [a, b, c], "h": {"p": 5}}
+    doc = cmap(("k", 0), ("l", lst), ("h", cmap(("p", 5))), ("e", cmap()), ("z", cseq()))
+    model = {"k": 0, "l": [a, b, c], "h": {"p": 5}, "e": {}, "z": []}
     proc = Processor(LOG, doc)
     for step, (op, i) in enumerate(((op1, i1), (op2, i2))):
         n = len(model["l"])
@@ -218,21 +226,27 @@ def history(op1: int, i1: int, op2: int, i2: int, v: int, a: int, b: int, c: int
             proc.set_value("l[" + str(i) + "]", v, mustexist=True)
             model["l"][i] = v
         elif op == 1:        # create (append / new key)
-            if i % 2 == 0:
+            if i == 0:
                 proc.set_value("l[" + str(n) + "]", v)
                 model["l"].append(v)
-            else:
+            elif i == 1:
                 proc.set_value("h.n" + str(step), v)
                 model["h"]["n" + str(step)] = v
+            elif i == 2:       # below an existing EMPTY hash
+                proc.set_value("e.n" + str(step), v)
+                model["e"]["n" + str(step)] = v
+            else:              # into an existing EMPTY list
+                proc.set_value("z[" + str(len(model["z"])) + "]", v)
+                model["z"].append(v)
         else:                # delete element
             if not (0 <= i < n):
                 continue
             for _ in proc.delete_nodes("l[" + str(i) + "]"):
                 pass
             del model["l"][i]
-        got = {"k": doc["k"], "l": list(doc["l"]), "h": dict(doc["h"])}
+        got = {"k": doc["k"], "l": _seq(doc["l"]), "h": _map(doc["h"]), "e": _map(doc["e"]), "z": _seq(doc["z"])}
         note(step=step, op=op, i=i, got=got, model=model)
-        if got != model or list(doc.keys()) != ["k", "l", "h"]:
+        if got != model or list(doc.keys()) != ["k", "l", "h", "e", "z"]:
             return False
     return True
 
